@@ -106,8 +106,19 @@ LEVEL_TEXT = ("proof (model) + correspondence on artist data; Voronoi polygon ge
 
 CMAP = "magma"
 # content patterns, cycled per stratum so that every run covers each of them
-CELL_PATTERNS = ["one", "sparse", "full", "sparse", "equal", "empty", "sparse"]
-POINT_PATTERNS = ["one", "many", "few", "many", "equal"]
+# "replaced" = CMA-MAE archive (learning_rate < 1, finite threshold_min) filled by a history in which elites are
+# replaced by LOWER objectives, so that archive.stats.obj_max is stale with respect to the stored contents
+CELL_PATTERNS = ["one", "replaced", "sparse", "full", "equal", "empty", "sparse", "replaced"]
+POINT_PATTERNS = ["one", "many", "few", "many", "equal", "many"]
+# objective scales, cycled with a period coprime to the pattern cycles: "coarse" = multiples of 1/4 in [-8, 8];
+# the others are NEARLY TIED RELATIVE TO THEIR MAGNITUDE and exactly representable (also in float32):
+# base + k * step, 0 <= k <= K, with K small enough that max - min is often below 1e-5 * |base|
+OBJ_SCALES = ["coarse", "near1024", "coarse", "negbig", "near4096"]
+SCALE_DEF = {  # name: (base, step, choices of K)
+    "near1024": (1024.0, 1.0 / 512, [1, 2, 3, 5, 40]),
+    "negbig": (-262144.0, 1.0, [1, 2, 2, 9]),
+    "near4096": (4096.0, 1.0 / 256, [1, 3, 8, 10, 100]),
+}
 
 # --------------------------------------------------------------------------
 # helpers
@@ -202,15 +213,55 @@ def parse_rats(s):
     return [] if s in ("-", "") else [Fraction(t) for t in s.split(",")]
 
 
-def gen_clim(rng):
-    mode = rng.choice(["default", "default", "both", "vmin", "vmax"])
-    vmin = dy(rng, -10, -1, 4) if mode in ("both", "vmin") else None
-    vmax = dy(rng, 1, 10, 4) if mode in ("both", "vmax") else None
+def make_scale(rng, name=None):
+    name = name or rng.choice(OBJ_SCALES)
+    if name == "coarse":
+        return {"name": name}
+    base, step, ks = SCALE_DEF[name]
+    return {"name": name, "base": base, "step": step, "K": rng.choice(ks)}
+
+
+def gen_obj(rng, sc):
+    if sc["name"] == "coarse":
+        return dy(rng, -8, 8, 4)
+    return sc["base"] + rng.randint(0, sc["K"]) * sc["step"]
+
+
+def lower_obj(rng, sc, o):
+    """an objective strictly below `o` on the lattice of the scale."""
+    if sc["name"] == "coarse":
+        return o - rng.choice([0.25, 1.0, 3.5])
+    return o - rng.randint(1, 3) * sc["step"]
+
+
+def scale_tmin(sc):
+    """a threshold_min far below every objective of the scale."""
+    return -1024.0 if sc["name"] == "coarse" else sc["base"] - 2048 * sc["step"]
+
+
+def gen_clim(rng, sc):
+    """explicit / one-sided / default limits; on the near-tied scales (and sometimes on the coarse one) the
+    explicit limits CLOSE TOGETHER relative to their magnitude — they must be honoured exactly."""
+    if sc["name"] == "coarse":
+        mode = rng.choice(["default", "default", "both", "vmin", "vmax", "far-close"])
+        if mode == "far-close":
+            v = rng.choice([2048.0, -65536.0])
+            return v, v + rng.choice([1.0 / 128, 1.0 / 64])
+        vmin = dy(rng, -10, -1, 4) if mode in ("both", "vmin") else None
+        vmax = dy(rng, 1, 10, 4) if mode in ("both", "vmax") else None
+        return vmin, vmax
+    base, step, k = sc["base"], sc["step"], sc["K"]
+    mode = rng.choice(["default", "default", "both", "both", "vmin", "vmax"])
+    if mode == "both":
+        vmin = base + rng.randint(-2, k) * step
+        return vmin, vmin + rng.choice([1, 1, 2, 3]) * step
+    vmin = base + rng.randint(-3, max(0, k - 1)) * step if mode == "vmin" else None
+    vmax = base + rng.randint(1, k + 3) * step if mode == "vmax" else None
     return vmin, vmax
 
 
-def gen_variant(rng, **extra):
-    vmin, vmax = gen_clim(rng)
+def gen_variant(rng, sc, **extra):
+    vmin, vmax = gen_clim(rng, sc)
     v = {"vmin": vmin, "vmax": vmax, "cbar": rng.random() < 0.3, "gca": rng.random() < 0.25}
     v.update(extra)
     return v
@@ -221,7 +272,9 @@ def effective_limits(variant, objs):
     give vmin > vmax is dropped; an empty archive gets both limits explicitly."""
     vmin, vmax = variant["vmin"], variant["vmax"]
     if len(objs) == 0:
-        return (-2.0 if vmin is None else vmin), (3.0 if vmax is None else vmax)
+        if vmin is None and vmax is None:
+            return -2.0, 3.0
+        return (vmax - 5.0 if vmin is None else vmin), (vmin + 5.0 if vmax is None else vmax)
     lo = min(objs) if vmin is None else vmin
     hi = max(objs) if vmax is None else vmax
     if lo > hi:
@@ -448,7 +501,8 @@ def call_both(fn, archive, variant, kwargs, read, where, vmin, vmax):
 # grid heat-maps
 
 
-def gen_grid(rng, one_d, pattern=None):
+def gen_grid(rng, one_d, pattern=None, scale=None):
+    sc = make_scale(rng, scale)
     if one_d:
         dims = [rng.randint(1, 8)]
     else:
@@ -466,29 +520,62 @@ def gen_grid(rng, one_d, pattern=None):
         chosen = []
     else:
         chosen = cells[:rng.randint(1, max(1, len(cells) - 1))]
-    same = dy(rng, -8, 8, 4)
-    ops = [{"cell": c, "o": same if pattern == "equal" else dy(rng, -8, 8, 4)} for c in chosen]
+    same = gen_obj(rng, sc)
+    ops = [{"cell": c, "o": same if pattern == "equal" else gen_obj(rng, sc)} for c in chosen]
     if pattern in ("sparse", "full") and rng.random() < 0.4:
         for c in rng.sample(chosen, min(len(chosen), 3)):
-            ops.append({"cell": c, "o": dy(rng, -8, 8, 4)})  # competition for a cell
+            ops.append({"cell": c, "o": gen_obj(rng, sc)})  # competition for a cell
         rng.shuffle(ops)
-    plots = [gen_variant(rng, tr=tr) for tr in ((False, True) if not one_d else (rng.random() < 0.3,))]
+    cma = replaced_history(rng, sc, ops, "cell") if pattern == "replaced" else None
+    plots = [gen_variant(rng, sc, tr=tr) for tr in ((False, True) if not one_d else (rng.random() < 0.3,))]
     if rng.random() < 0.3:
-        plots.append(gen_variant(rng, tr=rng.random() < 0.5))
+        plots.append(gen_variant(rng, sc, tr=rng.random() < 0.5))
     return {"kind": "grid1" if one_d else "grid2", "dims": dims, "lows": lows, "widths": widths,
-            "pattern": pattern, "ops": ops, "plots": plots}
+            "pattern": pattern, "oscale": sc, "cma": cma, "ops": ops, "plots": plots}
+
+
+def replaced_history(rng, sc, ops, key):
+    """Appends (in place, order matters: one add call per op) later candidates for already filled cells: a
+    LOWER objective for the cell holding the best elite, arbitrary ones for a few others.  Returns the CMA-MAE
+    settings under which they replace the incumbents."""
+    if ops:
+        best = max(ops, key=lambda op: op["o"])
+        later = [{key: best[key], "o": lower_obj(rng, sc, best["o"])}]
+        for op in rng.sample(ops, min(len(ops), 2)):
+            later.append({key: op[key], "o": lower_obj(rng, sc, op["o"]) if rng.random() < 0.6 else gen_obj(rng, sc)})
+        rng.shuffle(later)
+        ops.extend(later)
+    return {"lr": rng.choice([0.0, 0.125, 0.5]), "tmin": scale_tmin(sc)}
+
+
+def cma_kwargs(case):
+    cma = case.get("cma")
+    return {} if not cma else {"learning_rate": cma["lr"], "threshold_min": cma["tmin"]}
+
+
+def add_ops(a, case, objs, meas):
+    """one batch, or (CMA-MAE histories) one add call per op in order."""
+    if not objs:
+        return
+    if case.get("cma"):
+        for k, (o, m) in enumerate(zip(objs, meas)):
+            a.add([[float(k)]], [o], [m])
+        st = a.stats
+        if st.obj_max is not None and float(st.obj_max) > max(float(x) for x in a.data("objective")):
+            stat(f"content:{case['kind']}:stale-stats.obj_max")
+    else:
+        a.add(np.arange(len(objs), dtype=float)[:, None], objs, meas)
 
 
 def build_grid(case):
     from ribs.archives import GridArchive
     dims = case["dims"]
     ranges = [(lo, lo + w) for lo, w in zip(case["lows"], case["widths"])]
-    a = GridArchive(solution_dim=1, dims=dims, ranges=ranges)
+    a = GridArchive(solution_dim=1, dims=dims, ranges=ranges, **cma_kwargs(case))
     ops = case["ops"]
-    if ops:
-        meas = [[lo + (g + 0.5) * w / d for g, lo, w, d in zip(op["cell"], case["lows"], case["widths"], dims)]
-                for op in ops]
-        a.add(np.arange(len(ops), dtype=float)[:, None], [op["o"] for op in ops], meas)
+    meas = [[lo + (g + 0.5) * w / d for g, lo, w, d in zip(op["cell"], case["lows"], case["widths"], dims)]
+            for op in ops]
+    add_ops(a, case, [op["o"] for op in ops], meas)
     return a
 
 
@@ -566,7 +653,8 @@ def run_grid(case):
 # CVT heat-maps
 
 
-def gen_cvt1(rng, pattern=None):
+def gen_cvt1(rng, pattern=None, scale=None):
+    sc = make_scale(rng, scale)
     n = rng.choice([1, 2, 2, 3, 4, 5, 8, 13, 21, 30]) if rng.random() < 0.7 else rng.randint(1, 30)
     lo = dy(rng, -8, 0, 4)
     width = rng.choice([1, 2, 4, 8])
@@ -577,13 +665,14 @@ def gen_cvt1(rng, pattern=None):
     rng.shuffle(idx)
     pattern = pattern or rng.choice(CELL_PATTERNS)
     chosen = {"one": idx[:1], "full": idx, "empty": []}.get(pattern, idx[:rng.randint(1, max(1, n - 1))])
-    same = dy(rng, -8, 8, 4)
-    ops = [{"c": c, "o": same if pattern == "equal" else dy(rng, -8, 8, 4)} for c in chosen]
-    plots = [gen_variant(rng, tr=False, plot_centroids=rng.random() < 0.2)]
+    same = gen_obj(rng, sc)
+    ops = [{"c": c, "o": same if pattern == "equal" else gen_obj(rng, sc)} for c in chosen]
+    cma = replaced_history(rng, sc, ops, "c") if pattern == "replaced" else None
+    plots = [gen_variant(rng, sc, tr=False, plot_centroids=rng.random() < 0.2)]
     if rng.random() < 0.5:
-        plots.append(gen_variant(rng, tr=rng.random() < 0.5))
-    return {"kind": "cvt1", "lo": lo, "width": width, "centroids": cents, "pattern": pattern, "ops": ops,
-            "plots": plots}
+        plots.append(gen_variant(rng, sc, tr=rng.random() < 0.5))
+    return {"kind": "cvt1", "lo": lo, "width": width, "centroids": cents, "pattern": pattern, "oscale": sc,
+            "cma": cma, "ops": ops, "plots": plots}
 
 
 def run_cvt1(case):
@@ -592,11 +681,9 @@ def run_cvt1(case):
     cents = case["centroids"]
     lo, hi = case["lo"], case["lo"] + case["width"]
     a = CVTArchive(solution_dim=1, cells=len(cents), ranges=[(lo, hi)],
-                   custom_centroids=np.asarray(cents, dtype=float)[:, None])
+                   custom_centroids=np.asarray(cents, dtype=float)[:, None], **cma_kwargs(case))
     ops = case["ops"]
-    if ops:
-        a.add(np.arange(len(ops), dtype=float)[:, None], [op["o"] for op in ops],
-              [[cents[op["c"]]] for op in ops])
+    add_ops(a, case, [op["o"] for op in ops], [[cents[op["c"]]] for op in ops])
     data = a.data()
     objs = [float(o) for o in data["objective"]]
     stored = {int(i): F(o) for i, o in zip(data["index"], data["objective"])}
@@ -652,7 +739,8 @@ def run_cvt1(case):
     return None
 
 
-def gen_cvt2(rng, pattern=None):
+def gen_cvt2(rng, pattern=None, scale=None):
+    sc = make_scale(rng, scale)
     n = rng.choice([1, 2, 3, 5, 8, 13, 20, 30]) if rng.random() < 0.6 else rng.randint(1, 30)
     lows = [dy(rng, -8, 8, 4), dy(rng, 16, 32, 4)]
     widths = [rng.choice([1, 2, 4]), rng.choice([1, 3, 8])]
@@ -665,15 +753,16 @@ def gen_cvt2(rng, pattern=None):
     rng.shuffle(idx)
     pattern = pattern or rng.choice(CELL_PATTERNS)
     chosen = {"one": idx[:1], "full": idx, "empty": []}.get(pattern, idx[:rng.randint(1, max(1, n - 1))])
-    same = dy(rng, -8, 8, 4)
-    ops = [{"c": c, "o": same if pattern == "equal" else dy(rng, -8, 8, 4)} for c in chosen]
+    same = gen_obj(rng, sc)
+    ops = [{"c": c, "o": same if pattern == "equal" else gen_obj(rng, sc)} for c in chosen]
+    cma = replaced_history(rng, sc, ops, "c") if pattern == "replaced" else None
     plots = []
     for tr in (False, True):
-        v = gen_variant(rng, tr=tr, clip=rng.random() < 0.25)
+        v = gen_variant(rng, sc, tr=tr, clip=rng.random() < 0.25)
         v["cbar"] = rng.random() < 0.5
         plots.append(v)
-    return {"kind": "cvt2", "lows": lows, "widths": widths, "centroids": cents, "pattern": pattern, "ops": ops,
-            "plots": plots}
+    return {"kind": "cvt2", "lows": lows, "widths": widths, "centroids": cents, "pattern": pattern, "oscale": sc,
+            "cma": cma, "ops": ops, "plots": plots}
 
 
 def read_poly(fg, n_before):
@@ -696,11 +785,9 @@ def run_cvt2(case):
     cents = np.asarray(case["centroids"], dtype=float)
     n = len(cents)
     ranges = [(lo, lo + w) for lo, w in zip(case["lows"], case["widths"])]
-    a = CVTArchive(solution_dim=1, cells=n, ranges=ranges, custom_centroids=cents)
+    a = CVTArchive(solution_dim=1, cells=n, ranges=ranges, custom_centroids=cents, **cma_kwargs(case))
     ops = case["ops"]
-    if ops:
-        a.add(np.arange(len(ops), dtype=float)[:, None], [op["o"] for op in ops],
-              [list(cents[op["c"]]) for op in ops])
+    add_ops(a, case, [op["o"] for op in ops], [list(cents[op["c"]]) for op in ops])
     data = a.data()
     objs = [float(o) for o in data["objective"]]
     stored = {int(i): float(o) for i, o in zip(data["index"], data["objective"])}
@@ -774,7 +861,9 @@ def run_cvt2(case):
                         return Failure("corr", f"{where}: centroid {i} impl colour {fc}, model blank")
                 elif not np.allclose(fc, cmap(float(mcells[i])), atol=0.03 if degenerate else 1e-9, rtol=0):
                     return Failure("corr", f"{where}: centroid {i} impl colour {fc}, model t={float(mcells[i])}")
-            if not clim_corr(obs["clim"], mclim, tol=Fraction(1, 10**12) if degenerate else None):
+                # the widening constant 0.01 is not a dyadic rational: rounded relation, tolerance 2^-40 * magnitude
+            wtol = max(Fraction(1, 10**12), Fraction(1, 2**40) * max(abs(mclim[0]), abs(mclim[1])))
+            if not clim_corr(obs["clim"], mclim, tol=wtol if degenerate else None):
                 return Failure("corr", f"{where}: clim impl={_short(obs['clim'])} model={_short(mclim)}")
             return None
 
@@ -788,27 +877,28 @@ def run_cvt2(case):
 # scatter plots: sliding boundaries, proximity
 
 
-def gen_points(rng, lows, widths, n, spill):
+def gen_points(rng, sc, lows, widths, n, spill):
     out = []
     for _ in range(n):
         m = [dy(rng, lo - (w if spill else 0), lo + w + (w if spill else 0), 16) for lo, w in zip(lows, widths)]
-        out.append({"m": m, "o": dy(rng, -8, 8, 4)})
+        out.append({"m": m, "o": gen_obj(rng, sc)})
     return out
 
 
-def gen_sliding(rng, pattern=None):
+def gen_sliding(rng, pattern=None, scale=None):
+    sc = make_scale(rng, scale)
     dims = [rng.randint(1, 6), rng.randint(1, 6)]
     lows = [dy(rng, -8, 8, 4), dy(rng, 16, 32, 4)]
     widths = [rng.choice([1, 2, 4]), rng.choice([3, 8])]
     pattern = pattern or rng.choice(POINT_PATTERNS)
     n = {"one": 1, "few": rng.randint(2, 4)}.get(pattern, rng.randint(5, 30))
-    ops = gen_points(rng, lows, widths, n, spill=rng.random() < 0.2)
+    ops = gen_points(rng, sc, lows, widths, n, spill=rng.random() < 0.2)
     if pattern == "equal":
         for op in ops:
             op["o"] = ops[0]["o"]
-    plots = [gen_variant(rng, tr=tr, lw=rng.choice([0, 0.5, 0.5, 1.0])) for tr in (False, True)]
+    plots = [gen_variant(rng, sc, tr=tr, lw=rng.choice([0, 0.5, 0.5, 1.0])) for tr in (False, True)]
     return {"kind": "sliding", "dims": dims, "lows": lows, "widths": widths, "remap": rng.randint(2, 6),
-            "buffer": rng.randint(4, 20), "pattern": pattern, "ops": ops, "plots": plots}
+            "buffer": rng.randint(4, 20), "pattern": pattern, "oscale": sc, "ops": ops, "plots": plots}
 
 
 def run_sliding(case):
@@ -899,18 +989,19 @@ def cmp_scatter(obs, line, where, lines, lims):
     return None
 
 
-def gen_prox(rng, pattern=None):
+def gen_prox(rng, pattern=None, scale=None):
+    sc = make_scale(rng, scale)
     lows = [dy(rng, -8, 8, 4), dy(rng, 16, 32, 4)]
     widths = [rng.choice([1, 2, 4]), rng.choice([3, 8])]
     pattern = pattern or rng.choice(POINT_PATTERNS)
     n = {"one": 1, "few": rng.randint(2, 4)}.get(pattern, rng.randint(5, 25))
-    ops = gen_points(rng, lows, widths, n, spill=False)
+    ops = gen_points(rng, sc, lows, widths, n, spill=False)
     if pattern == "equal":
         for op in ops:
             op["o"] = ops[0]["o"]
-    plots = [gen_variant(rng, tr=tr, bounds=rng.random() < 0.5) for tr in (False, True)]
+    plots = [gen_variant(rng, sc, tr=tr, bounds=rng.random() < 0.5) for tr in (False, True)]
     return {"kind": "prox", "lows": lows, "widths": widths, "k": rng.randint(1, 3),
-            "thr": rng.choice([0.0, 0.125, 0.5, 1.0]), "pattern": pattern, "ops": ops, "plots": plots}
+            "thr": rng.choice([0.0, 0.125, 0.5, 1.0]), "pattern": pattern, "oscale": sc, "ops": ops, "plots": plots}
 
 
 def run_prox(case):
@@ -981,7 +1072,8 @@ def run_prox(case):
 # parallel axes plot
 
 
-def gen_parallel(rng, pattern=None):
+def gen_parallel(rng, pattern=None, scale=None):
+    sc = make_scale(rng, scale)
     md = rng.choice([1, 2, 2, 3, 3, 4])
     dims = [rng.randint(1, 4) for _ in range(md)]
     lows = [dy(rng, -8, 8, 4) for _ in range(md)]
@@ -990,7 +1082,7 @@ def gen_parallel(rng, pattern=None):
     n = {"one": 1, "few": rng.randint(2, 4)}.get(pattern, rng.randint(5, 16))
     ops = []
     for _ in range(n):
-        ops.append({"m": [dy(rng, lo, lo + w, 16) for lo, w in zip(lows, widths)], "o": dy(rng, -8, 8, 4)})
+        ops.append({"m": [dy(rng, lo, lo + w, 16) for lo, w in zip(lows, widths)], "o": gen_obj(rng, sc)})
     if pattern == "equal":
         for op in ops:
             op["o"] = ops[0]["o"]
@@ -999,9 +1091,9 @@ def gen_parallel(rng, pattern=None):
         order = None
         if rng.random() < 0.5:
             order = [rng.randrange(md) for _ in range(rng.randint(1, md + 1))]
-        plots.append(gen_variant(rng, sort=sort, order=order, named=rng.random() < 0.3))
-    return {"kind": "parallel", "dims": dims, "lows": lows, "widths": widths, "pattern": pattern, "ops": ops,
-            "plots": plots}
+        plots.append(gen_variant(rng, sc, sort=sort, order=order, named=rng.random() < 0.3))
+    return {"kind": "parallel", "dims": dims, "lows": lows, "widths": widths, "pattern": pattern, "oscale": sc,
+            "ops": ops, "plots": plots}
 
 
 def read_parallel(ncols):
@@ -1131,6 +1223,7 @@ def run_case(case):
     if not case.get("ops") and case["kind"] in ("sliding", "prox", "parallel"):
         return None  # these are never generated empty (the shrinker may ask)
     stat(f"content:{case['kind']}:{case.get('pattern')}")
+    stat(f"objectives:{(case.get('oscale') or {}).get('name', 'coarse')}")
     try:
         return RUNNERS[case["kind"]](case)
     finally:
@@ -1172,8 +1265,8 @@ def run(ctx):
     import matplotlib
     matplotlib.use("Agg")
     plan = [  # stratum, generator, patterns, cases quick / thorough, time budget quick / thorough (s)
-        ("grid2", lambda r, p: gen_grid(r, False, p), CELL_PATTERNS, 36, 600, 6.5, 55.0),
-        ("grid1", lambda r, p: gen_grid(r, True, p), CELL_PATTERNS, 40, 600, 3.0, 35.0),
+        ("grid2", lambda r, p, s: gen_grid(r, False, p, s), CELL_PATTERNS, 36, 600, 6.5, 55.0),
+        ("grid1", lambda r, p, s: gen_grid(r, True, p, s), CELL_PATTERNS, 40, 600, 3.0, 35.0),
         ("cvt1", gen_cvt1, CELL_PATTERNS, 36, 550, 3.5, 40.0),
         ("cvt2", gen_cvt2, CELL_PATTERNS, 26, 400, 3.5, 45.0),
         ("sliding", gen_sliding, POINT_PATTERNS, 30, 450, 3.0, 40.0),
@@ -1185,10 +1278,12 @@ def run(ctx):
         counter = [0]
 
         def gen_k(rng, gen=gen, pats=pats, counter=counter):
-            # explore() draws cases in index order, so the pattern is a function of the case index
+            # explore() draws cases in index order, so content pattern and objective scale are functions of the
+            # case index (cycle lengths are coprime: every combination occurs)
             pat = pats[counter[0] % len(pats)]
+            scale = OBJ_SCALES[counter[0] % len(OBJ_SCALES)]
             counter[0] += 1
-            return gen(rng, pat)
+            return gen(rng, pat, scale)
         # corpus cases of the stratum are replayed whatever the budget
         budget = max(0.5, min(bq if ctx.quick else bt, deadline - ctx.elapsed()))
         ctx.explore(name, gen_k, run_case, ctx.n(nq, nt), nontrivial=nontrivial, time_budget=budget)
